@@ -397,6 +397,7 @@ def r4(run: Run, src):
 
 
 def run(run: Run):
+    from .common import cached_guard as _cached_guard
     src = get_source()
     g = get_grammar(src)
     em = get_emission(src)
@@ -407,10 +408,10 @@ def run(run: Run):
     run.rule('C03.R4', 'entry cell vs whole file dispatch')
     run.rule('C03.R5', 'a changed entry cell / path invalidates the cached translation (shared with C09.R1)')
     run.rule('C03.R6', 'areas enumerate every cell incl. last row/column, row-major (shared with C02.R2/R4)')
-    run.guard('C03.R1', r1, run, src, g, em, cg)
-    run.guard('C03.R2', r2, run, src, cg)
-    run.guard('C03.R3', r3, run, src, cg)
-    run.guard('C03.R4', r4, run, src)
+    _cached_guard(run, 'C03.R1', r1, src, g, em, cg)
+    _cached_guard(run, 'C03.R2', r2, src, cg)
+    _cached_guard(run, 'C03.R3', r3, src, cg)
+    _cached_guard(run, 'C03.R4', r4, src)
     from . import c09, c02
     borrow(run, 'C03.R5', c09.r1_any, src)
     borrow(run, 'C03.R6', c02.r2, src)
@@ -425,7 +426,7 @@ def run(run: Run):
     run.floor('C03.R8', 1)
     from .common import check_rejections_propagate
     run.rule('C03.R9', 'the rejection of a cycle reaches the caller: no handler on the translation path turns it into a value')
-    run.guard('C03.R9', check_rejections_propagate, run, 'C03.R9', src, cg, ['Context.start_cell_translation'], 'a circular reference')
+    _cached_guard(run, 'C03.R9', check_rejections_propagate, 'C03.R9', src, cg, ['Context.start_cell_translation'], 'a circular reference')
     run.floor('C03.R9', 50)
     run.floor('C03.R1', 10)
     run.floor('C03.R2', 6)
@@ -436,6 +437,6 @@ def run(run: Run):
     from . import pipeline_eval as _pe
     from ..grammar import get_grammar as _gg_pe
     run.rule('C03.R10', 'a workbook of dependent formulas gives every cell the same value in the whole-file translation and in each entry-point slice, end to end by evaluation')
-    run.guard('C03.R10', _pe.book_obligations, run, 'C03.R10', 'C03.R10', get_source(), _gg_pe(get_source()))
+    _cached_guard(run, 'C03.R10', _pe.book_obligations, 'C03.R10', 'C03.R10', get_source(), _gg_pe(get_source()))
     run.floor('C03.R10', 25)
     return INFO
